@@ -17,7 +17,10 @@
     size of 2^63 or more - outside the model, [MUndef] - the translation stops with [GPanic] at the overlay, because
     int(size) is negative; the real code then holds a slice of negative length that Go's unsigned bounds checks do not
     catch and dies with a fatal fault (see C06_memset_edges).  No hypotheses.
-    [C06_memset_translated_fills_exactly] combines the tie with C06_memset_fills_exactly.
+    [C06_memset_translated_fills_exactly] combines the tie with C06_memset_fills_exactly; side conditions: size <> 0,
+    size < 2^63 and the window [base, base + size) lies inside the memory.  (In both ties the byte-level primitives
+    [set_byte] / [go_copy] are the model's own functions on both sides: what is tied is the control structure around them.)
+    Side conditions of the seam theorem below: the page resolves in the MMU model and its window lies inside the byte memory.
     [C06_memset_seam_is_memset] closes the kernel.Memset seam of the page-table ties (C04_pdt_init_is_translation,
     C04_map_is_translation, C06_reserve_zeroed_is_translation, ...): the oracle [T.o_memset] they use for
     kernel.Memset(addr, 0, mm.PageSize) - "the frame the page resolves to becomes all zero, nothing else changes" - is
